@@ -22,8 +22,11 @@
 //   <ct>  = TS[st] | TSS[st] | TSL[ct,n] | TSD[st,ct] | TSW[st,p,m] | TSB[f:ct,..] | TSB<name>[f:ct,..] | REF[ct] | SIGNAL
 //   <tp>  = ~name | ~name<ct|ct..> | =<ct> | TS[sp] | TSS[sp] | TSL[tp,n] | TSL[tp,~N] | TSL[tp,~N<n|n..>]
 //         | TSD[sp,tp] | TSW[sp,p,m] | TSW[sp,*] | TSB[f:tp,..] | TSB<name>[f:tp,..] | TSB[~S] | REF[tp] | SIGNAL
-//   TSB<name>[..] is a NAMED bundle (schema) / a named field-listing bundle pattern; the Lean model has no named
-//   bundles, so these lines are only used on the monitor-only stream of tools/props/c19.py
+//   TSB<name>[..] is a NAMED bundle (schema: TypeRegistry::tsb(name, fields)) / a named field-listing bundle pattern.
+//   Bundles are nominal: TSB<A>[x:..], TSB<B>[x:..] and TSB[x:..] are three different interned schemas with the same
+//   field list (lean/HgVerif/Model/Dispatch.lean carries the optional name in the bundle term).  The registry's name
+//   space is process-global (one name, one field list; a conflicting re-declaration is answered "bad-op"): the
+//   generator of tools/props/c19.py derives every name from the field list.
 #include "hgv_common.h"
 
 #include <hgraph/types/graph_wiring.h>
